@@ -514,6 +514,9 @@ class SymFrac(object):
         elif isinstance(o, SymFrac) and o.d.key() == self.d.key():
             l = self.n.sub(o.n).sub(self.d.scale(o.k - self.k))
         else:
+            q = self._quadratic_rel(o, op, swap)
+            if q is not None:
+                return q
             a = self.mat()
             b = o.mat() if isinstance(o, SymFrac) else o
             if swap:
@@ -523,6 +526,47 @@ class SymFrac(object):
             return _cmp(l, "eq")
         flip = (not self.pos) != swap
         return _cmp(l.neg() if flip else l, op)
+
+    def _quadratic_rel(self, o, op, swap):
+        """c/d  op  alpha*d  with d a positive multiple of an INTEGER-valued form Y:  decided exactly and linearly,
+        since for an integer Y >= 0 and rational C:  Y*Y < C  <=>  Y <= isqrt(ceil(C) - 1),  Y*Y <= C  <=>  Y <= isqrt(floor(C))"""
+        if not isinstance(o, SymNum) or self.k or self.n.t or op == "eq" or not self.pos:
+            return None
+        ol, d = o.lin, self.d
+        if ol.c or d.c or set(ol.t) != set(d.t) or not d.t:
+            return None
+        v0 = next(iter(d.t))
+        alpha = ol.t[v0] / d.t[v0]
+        if alpha <= 0 or any(ol.t[v] != alpha * d.t[v] for v in d.t):
+            return None
+        e = cur()
+        if any(e.vsort[v] != "I" for v in d.t):
+            return None
+        from math import gcd, isqrt, floor, ceil
+
+        den = 1
+        for k in d.t.values():
+            den = den * k.denominator // gcd(den, k.denominator)
+        g = 0
+        for k in d.t.values():
+            g = gcd(g, int(k * den))
+        beta = Fraction(g, den)  # d = beta * Y, Y integer form with coprime integer coefficients
+        Y = d.scale(1 / beta)
+        C = self.n.c / (alpha * beta * beta)  # n/d op alpha*d  <=>  n op alpha*beta^2*Y^2  <=>  C op Y^2
+        # relation between  n/d  (self) and  alpha*d (o);  swap means  o op self
+        strict = op == "lt"
+        if not swap:
+            # C/.. : self < o  <=>  C < Y^2 (strict) ; self <= o <=> C <= Y^2
+            #   Y^2 > C  <=>  Y >= isqrt(floor(C)) + 1 ;  Y^2 >= C  <=>  Y >= isqrt(ceil(C) - 1) + 1   (C > 0)
+            if C < 0:
+                return True
+            bound = isqrt(floor(C)) + 1 if strict else (isqrt(ceil(C) - 1) + 1 if C > 0 else 0)
+            return _cmp(Lin.const(bound).sub(Y), "le")
+        # o op self:  Y^2 < C (strict)  <=>  Y <= isqrt(ceil(C) - 1) ;  Y^2 <= C  <=>  Y <= isqrt(floor(C))
+        if C < 0 or (strict and C <= 0):
+            return False
+        bound = isqrt(ceil(C) - 1) if strict else isqrt(floor(C))
+        return _cmp(Y.sub(Lin.const(bound)), "le")
 
     def __lt__(self, o):
         return self._rel(o, "lt")
